@@ -6,5 +6,5 @@ import (
 )
 
 func main() {
-	Main(map[string]Runner{"locks": embx.RunLocks})
+	Main(map[string]Runner{"locks": embx.RunLocks, "bridgeliq": embx.RunBridgeLiq, "liqtreasury": embx.RunLiqTreasury})
 }
